@@ -3,8 +3,8 @@ import vlib
 CFG = dict(
     imports=["From Verif.Common Require Import Packet PolicyRef Labels.", "From Verif.C05 Require Import Model Spec."],
     checker="check_case",
-    n=dict(quick=240, thorough=10000),
-    shard=30,
+    n=dict(quick=120, thorough=10000),
+    shard=15,
     rule="histories of 10-37 datastore updates over 4 profiles, 4 policies, 3 tiers, 3 workload + 2 host endpoints, fed through "
          "the real ValidationFilter into the real ActiveRulesCalculator; values are valid or made invalid in one of ~20 ways; "
          "non-trivial = the deny stand-in was emitted for a referenced missing profile AND the history contains a late creation, "
